@@ -265,8 +265,44 @@ def gen_template(r):
     alts.append(r.choice(['sect$num', 'sect$num(4)', 'f$num(3)', '$num', 'file-$num(2)']))
     prefix = r.choice(['', '', '', 'p_'])
     suffix = r.choice(['', '', '', '-x'])
+    if r.random() < 0.3:
+        # explicit extensions (the generator must compare names WITH the default extension added)
+        static = [n + '.html' if r.random() < 0.6 else n for n in static]
+        if not prefix and not suffix:
+            import re as _re
+            # (never an alternative whose stem can be empty: '.html' alone would get the extension a second time)
+            alts = [a + '.html' if r.random() < 0.4 and ('$num' in a or '$id' in a or _re.sub(r'\$\{?\w+\}?(\(\d\))?', '', a)) else a for a in alts]
     wild = '%s[%s]%s' % (prefix, ', '.join(alts), suffix)
     return ' '.join(static + [wild]), False
+
+
+def collide_labels(r, doc, tpl):
+    """With some probability one label of the document is renamed to a name the template also produces by
+    another route: the stem of a static name, or the first numbered candidates."""
+    import re
+    units = []
+
+    def walk(us):
+        for u in us:
+            if u.get('label'):
+                units.append(u)
+            walk(u['children'])
+    walk(doc['children'])
+    if not units or r.random() > 0.25:
+        return
+    pool = [w.split('.')[0] for w in tpl.split('[')[0].split() if w]
+    m = re.search(r'([A-Za-z_-]*)\$num(?:\((\d)\))?', tpl)
+    if m:
+        for k in (1, 2, 3):
+            pool.append('%s%s' % (m.group(1), str(k).zfill(int(m.group(2) or 1))))
+    pool = [x for x in pool if x and re.match(r'^[A-Za-z0-9_-]+$', x)]
+    if not pool:
+        return
+    taken = set(u['label'] for u in units)
+    u = r.choice(units)
+    lab = r.choice(pool)
+    if lab not in taken:
+        u['label'] = lab
 
 
 def generate(seed, tier):
@@ -275,6 +311,7 @@ def generate(seed, tier):
     doc = gen_document(r)
     rc = R('config')
     tpl, single = gen_template(rc)
+    collide_labels(R('collide'), doc, tpl)
     bad = rc.choice([None, None, DEFAULT_BAD.replace(' ', ''), ':/', ''])
     cfg = {'split': rc.choice([-10, -2, -1, 0, 0, 1, 1, 2, 2, 3, 3, 4, 5, 6]), 'template': tpl, 'single': single,
            'bad': bad, 'badsub': rc.choice(['-', '-', '_']),
@@ -617,10 +654,44 @@ CORPUS = ['unittests/amsthm/source.tex', 'unittests/sources/floats.tex', 'unitte
           'unittests/Packages/sources/textcomp.tex', 'unittests/Packages/sources/babel.tex', 'unittests/Packages/sources/multibib.tex']
 
 
+COLLISIONS = [
+    # (template, labels of the three sections): a label equals a name the template also forms by another route
+    ('index.html [$id, sect$num(4)]', ['index', 'La', 'Lb']),
+    ('index [$id.html, sect$num(4)]', ['La', 'index', 'Lb']),
+    ('index toc.html [$id, sect$num(4)]', ['toc', 'index', 'Lb']),
+    ('[$id, sect$num(4).html]', ['sect0001', 'La', None]),
+    ('[$id, sect$num(4).html]', [None, 'sect0001', None]),
+    ('[$id.html, sect$num(4)]', [None, 'sect0002', 'sect0001']),
+    ('index [$id, sect$num]', ['sect1', None, 'sect2']),
+    ('index [$id, $title(1), f$num(2)]', ['f01', None, None]),
+    ('index.html [u$title(1).html, $id, f$num(2)]', [None, 'f01', 'index']),
+]
+
+
+def collision_doc(labels):
+    g = Gen(None)
+    units = []
+    for k, lab in enumerate(labels):
+        sub = {'kind': 'subsection', 'level': 2, 'star': False, 'label': None, 'title': g.mk('tk'), 'body': [['para', [g.mk()]]], 'children': []}
+        units.append({'kind': 'section', 'level': 1, 'star': False, 'label': lab, 'title': '' if k == 1 else g.mk('tk'),
+                      'body': [['para', [g.mk(), g.mk()]]], 'children': [sub]})
+    return {'cls': 'article', 'body': [['para', [g.mk()]]], 'children': units}
+
+
 def enumerate_cases(base_seed, tier):
-    """The repository's own test documents under a few configurations: names and run independence only."""
+    """Name-collision cases (labels equal to names the template forms by another route), and the repository's own
+    test documents under a few configurations (names and run independence only)."""
     import random
     out = []
+    for k, (tpl, labels) in enumerate(COLLISIONS):
+        for split in ((1, 2) if tier == 'thorough' else (1,)):
+            r = random.Random(core.h64('C13-collide', base_seed, k, split))
+            cfg = {'split': split, 'template': tpl, 'single': False, 'bad': None, 'badsub': '-', 'renderer': ['HTML5', 'default']}
+            other = dict(cfg, split=0, template='front [$id, x$num(2)]')
+            env = {'hashseed': r.randrange(1, 1 << 30), 'perm': r.randrange(1 << 30), 'dclock': 3600, 'cwd_depth': 0,
+                   'outdir': 'out', 'unrelated': 0, 'useexec': False}
+            out.append({'property': PID, 'seed': core.h64('C13-collide', k, split), 'swarm': {'cfg': cfg, 'other': other, 'env': env},
+                        'ops': [{'op': 'DOC', 'doc': collision_doc(labels)}, {'op': 'E0'}, {'op': 'E1'}]})
     cfgs = [(2, 'index [$id, sect$num(4)]'), (1, '[$title(2), sect$num(3)]'), (0, 'index [$id, $title(3), f$num]'), (3, '[$ref, $id, s$num]')]
     for k, rel in enumerate(CORPUS):
         for j, (split, tpl) in enumerate(cfgs if tier == 'thorough' else cfgs[:2]):
